@@ -161,12 +161,27 @@ def esc_attr(s, quote):
     return s.replace('"', "&quot;") if quote == '"' else s.replace("'", "&apos;")
 
 
+COMMENTS = ["<!--c-->", "<!-- <x/> -->", "<!---->"]
+PIS = ["<?pi data?>", "<?pi?>", "<?x-y a='1'?>"]
+
+
+def misc_run(rng, kind):
+    """one to three ADJACENT comments / processing instructions (`kind`: "c", "pi" or "m" for a mix)"""
+    out = []
+    for _ in range(rng.choice([1, 1, 2, 2, 3])):
+        k = kind if kind in ("c", "pi") else rng.choice(["c", "pi"])
+        out.append(rng.choice(COMMENTS if k == "c" else PIS))
+    return "".join(out)
+
+
 def fancy_text(rng, s, noise):
     """the same character data written with CDATA sections, character references and
-    (when `noise`) comments / processing instructions in between"""
+    (when `noise`) runs of comments / processing instructions in front, in between and behind"""
     if not s:
         return ""
     out = []
+    if noise and rng.random() < 0.25:
+        out.append(misc_run(rng, noise))
     i = 0
     while i < len(s):
         j = min(len(s), i + rng.randint(1, 4))
@@ -178,8 +193,8 @@ def fancy_text(rng, s, noise):
             out.append("".join(f"&#{ord(ch)};" if rng.random() < 0.5 else f"&#x{ord(ch):x};" for ch in chunk))
         else:
             out.append(esc_text(chunk))
-        if noise and j < len(s) and rng.random() < 0.3:
-            out.append(rng.choice(["<!--c-->", "<!-- <x/> -->"] if noise == "c" else ["<?pi data?>", "<?pi?>"]))
+        if noise and rng.random() < (0.35 if j < len(s) else 0.25):
+            out.append(misc_run(rng, noise))
         i = j
     return "".join(out)
 
@@ -220,17 +235,17 @@ def print_dtree(d, rng=None, noise=None, decl=False):
         else:
             parts.append(s + ">")
             if text:
-                parts.append(fancy_text(rng, text, "c" if "text_c" in noise else "pi" if "text_pi" in noise else None) if rng else esc_text(text))
+                parts.append(fancy_text(rng, text, "c" if "text_c" in noise else "pi" if "text_pi" in noise else "m" if "text_m" in noise else None) if rng else esc_text(text))
             elif rng and "between" in noise and n["c"] and rng.random() < 0.3:
-                parts.append(rng.choice(["<!--c-->", "<?pi?>"]))
+                parts.append(misc_run(rng, "m"))
             for c in n["c"]:
                 go(c)
             parts.append("</" + tag + (" " if rng and rng.random() < 0.1 else "") + ">")
         tl = n["tl"]
         if tl:
-            parts.append(fancy_text(rng, tl, "c" if "tail_c" in noise else "pi" if "tail_pi" in noise else None) if rng else esc_text(tl))
+            parts.append(fancy_text(rng, tl, "c" if "tail_c" in noise else "pi" if "tail_pi" in noise else "m" if "tail_m" in noise else None) if rng else esc_text(tl))
         elif rng and "between" in noise and rng.random() < 0.15:
-            parts.append(rng.choice(["<!--c-->", "<?pi?>"]))
+            parts.append(misc_run(rng, "m"))
 
     root = dict(d)
     root["tl"] = None
@@ -574,3 +589,39 @@ def real_hsource(kind, text="", data=b"", path=None):
         if "v" not in seen:
             return {"err": "HARNESS:" + type(e).__name__}
     return {"ok": seen["v"]}
+
+
+# --------------------------------------------------------------------------
+# documents with comments / PIs as nodes (op c08.lxml_text)
+# --------------------------------------------------------------------------
+def print_ctree(items):
+    """[{"t": str} | {"m": "c"|"pi"} | {"e": [items]}] -> markup (elements are all called `e`)"""
+    out = []
+    for it in items:
+        if "t" in it:
+            out.append(esc_text(it["t"]))
+        elif "m" in it:
+            out.append("<!--c-->" if it["m"] == "c" else "<?pi d?>")
+        else:
+            out.append("<e>" + print_ctree(it["e"]) + "</e>")
+    return "".join(out)
+
+
+def real_lxml_text(items, remove_comments):
+    """get_text / get_tail of the real lxml handler on every element of the tree libxml2 builds
+    (`remove_comments`: the way `etree.iterparse` is called for byte sources)"""
+    from xsdata.formats.dataclass.parsers.handlers import lxml as H
+
+    data = ("<e>" + print_ctree(items) + "</e>").encode()
+    if remove_comments:
+        it = LE.iterparse(io.BytesIO(data), ("end",), remove_comments=True)
+        for _ in it:
+            pass
+        root = it.root
+    else:
+        root = LE.fromstring(data)
+    out = []
+    for el in root.iter():
+        if isinstance(el.tag, str):
+            out.append([H.get_text(el), H.get_tail(el)])
+    return {"ok": out}
